@@ -27,7 +27,7 @@ func (c *Call) OK() bool {
 
 // FinalFail reports whether the call finished with an outcome after which no retry may follow.
 func (c *Call) PermFail() bool {
-	return c.Returned && !c.CtxDone && (c.Out == Perm || c.Out == PermWrap || c.Out == WrongType || c.Out == RespPerm || c.Out == WrongTrans || c.Out == WrongPerm)
+	return c.Returned && !c.CtxDone && (c.Out == Perm || c.Out == PermWrap || c.Out == WrongType || c.Out == WrongNamed || c.Out == RespPerm || c.Out == WrongTrans || c.Out == WrongPerm)
 }
 
 // TransFail reports a finished, retryable failure (transient error or timeout).
